@@ -14,11 +14,12 @@ fn c21_o3_disable_guard_restores() {
     let local = ZalsaLocal::new();
     let token = local.cancellation_token();
     let mut cancelled: bool = kani::any();
+    // the surrounding state: either already inside a disabled section (an enclosing fixpoint query) or not
     let disabled0: bool = kani::any();
     if cancelled {
         token.cancel();
     }
-    let _ = local.set_cancellation_disabled(disabled0);
+    let outer = if disabled0 { Some(DisableLocalCancellationGuard::new(&local)) } else { None };
     let when: u8 = kani::any();
     kani::assume(when < 4);
     {
@@ -43,13 +44,14 @@ fn c21_o3_disable_guard_restores() {
             cancelled = true;
         }
     }
-    assert!(token.is_cancelled() == cancelled, "C21: a cancel() request was lost or invented");
+    assert!(token.is_cancelled() == cancelled, "C21: a cancel() request was lost or invented across a disabled section");
     assert!(
         local.should_trigger_local_cancellation() == (cancelled && !disabled0),
         "C21: outer cancellation-disabled state not restored"
     );
     kani::cover!(cancelled && !disabled0 && when == 1);
     kani::cover!(disabled0);
+    std::mem::forget(outer);
     std::mem::forget(token);
     std::mem::forget(local);
 }
